@@ -124,6 +124,24 @@ fn cases() -> Vec<Bad> {
                 c.max_reg_count += 1;
                 c.output_regs = c.output_regs.iter().map(|r| if (r.0 as usize) >= k { Reg(r.0 + 1) } else { *r }).collect();
             }));
+            v.push(with_circ("output-register-never-written-gap", &|c| {
+                // the registers of all gates move up by one: register k (right behind the inputs) is never
+                // written, lies below the highest written register and is named as an output
+                let k: usize = c.input_regs.iter().sum();
+                let sh = |r: Reg| if (r.0 as usize) >= k { Reg(r.0 + 1) } else { r };
+                for i in c.insts.iter_mut().skip(k) {
+                    i.op = match i.op {
+                        Op::And(And(a, b)) => Op::And(And(sh(a), sh(b))),
+                        Op::Xor(Xor(a, b)) => Op::Xor(Xor(sh(a), sh(b))),
+                        Op::Not(polytune::garble_lang::register_circuit::Not(a)) => Op::Not(polytune::garble_lang::register_circuit::Not(sh(a))),
+                        o => o,
+                    };
+                    i.out = sh(i.out);
+                }
+                c.max_reg_count += 1;
+                c.output_regs = c.output_regs.iter().map(|r| sh(*r)).collect();
+                c.output_regs.push(Reg(k as u32));
+            }));
             v.push(with_circ("output-register-never-written", &|c| {
                 c.max_reg_count += 1;
                 c.output_regs.push(Reg((c.max_reg_count - 1) as u32));
